@@ -2,7 +2,9 @@ package harness
 
 import (
 	"fmt"
+	"os"
 	"testing"
+	"time"
 )
 
 const c01Rule = "generated schedule (which parked goroutine runs next at every call-out: backend Read/Write, builder, Failover debug/warn/error logs, Failover stats; when each Get starts; clock jumps; external ExpireAll/Delete) " +
@@ -87,4 +89,136 @@ func (w *world) classify(sc *scenario) {
 	}
 
 	c.Class(fmt.Sprintf("gets=%d", len(sc.gets)))
+}
+
+const c01SweepRule = "small-scope EXHAUSTIVE sweep at call-out granularity: 2 Gets on 1 key, every interleaving of their call-outs and of the second Get's arrival (resume/start choices only; no clock jumps, no external ops, no faults, logger and stats off) " +
+	"for every combination of 3 variants x SyncUpdate x SyncRead x FailHard x MaxStaleness {0,30s} x FailedUpdateTTL {default,-1} x initial state {absent, fresh, stale-recent, stale-old} x builder outcomes {ok,err}^2; oracle: C01 in-flight monitor + C02 provenance + C04 quiescence; " +
+	"a case = one complete schedule; non-trivial = the second Get started before the first returned"
+
+type sweepCombo struct {
+	variant, syncUpdate, syncRead, failHard, ms, nofail, state, fail0, fail1 int
+}
+
+var sweepCombos = func() []sweepCombo {
+	var out []sweepCombo
+
+	for v := 0; v < 3; v++ {
+		for su := 0; su < 2; su++ {
+			for sr := 0; sr < 2; sr++ {
+				for fh := 0; fh < 2; fh++ {
+					for ms := 0; ms < 2; ms++ {
+						for nf := 0; nf < 2; nf++ {
+							for st := 0; st < 4; st++ {
+								if st == ksStaleOld && ms == 0 {
+									continue
+								}
+
+								for f0 := 0; f0 < 2; f0++ {
+									for f1 := 0; f1 < 2; f1++ {
+										out = append(out, sweepCombo{v, su, sr, fh, ms, nf, st, f0, f1})
+									}
+								}
+							}
+						}
+					}
+				}
+			}
+		}
+	}
+
+	return out
+}()
+
+// TestC01Sweep enumerates all schedules of two Gets on one key for every configuration combination.
+func TestC01Sweep(t *testing.T) {
+	if os.Getenv("VERIF_REPLAY") != "" {
+		runCheck(t, "C01", "C01Sweep", c01SweepRule, propSweep)
+
+		return
+	}
+
+	shard, shards := envInt("VERIF_SHARD", 0), envInt("VERIF_SHARDS", 1)
+	limit := envInt("VERIF_SWEEP_LIMIT", 0) // combos per process (quick tier samples the table)
+	done, allExhausted, total := 0, true, 0
+	seed := envInt("VERIF_SEED_DERIVED", 1)
+
+	for i := range sweepCombos {
+		// deterministic pseudo-random assignment of combos to shards / the quick sample
+		if (i*2654435761+seed)%shards != shard {
+			continue
+		}
+
+		if limit > 0 && done >= limit {
+			allExhausted = false
+
+			break
+		}
+
+		n, ex := runEnumPrefix(t, "C01", "C01Sweep", c01SweepRule, []int{i}, 0, 200000, propSweep)
+		total += n
+		allExhausted = allExhausted && ex
+		done++
+
+		if t.Failed() {
+			return
+		}
+	}
+
+	st := statsFor("C01", "C01Sweep", c01SweepRule)
+	st.mu.Lock()
+	st.Extra["combos_total"] = len(sweepCombos)
+	st.Extra["combos_swept_exhaustively"] += done
+	st.Extra["schedules"] += total
+	st.Exhaustive = allExhausted && limit == 0
+	st.mu.Unlock()
+}
+
+func propSweep(c *Case) {
+	cb := sweepCombos[c.Pick("combo", len(sweepCombos))]
+	cfg := foCfg{
+		variant: cb.variant, syncUpdate: cb.syncUpdate == 1, syncRead: cb.syncRead == 1, failHard: cb.failHard == 1,
+		backendTTL: time.Hour, logger: 0, stats: false,
+	}
+
+	if cb.ms == 1 {
+		cfg.maxStaleness = 30 * time.Second
+	}
+
+	if cb.nofail == 1 {
+		cfg.failedUpdateTTL = -1
+	}
+
+	age := time.Duration(0)
+
+	switch cb.state {
+	case ksStaleRecent:
+		age = time.Second
+	case ksStaleOld:
+		age = time.Minute
+	}
+
+	sc := &scenario{cfg: cfg, nkeys: 1, states: []int{cb.state}, ages: []time.Duration{age}, prefail: []bool{false}}
+	sc.gets = []*getSpec{
+		{idx: 0, key: scenKeys[0], buildFails: cb.fail0 == 1},
+		{idx: 1, key: scenKeys[0], buildFails: cb.fail1 == 1},
+	}
+
+	c.Class(fmt.Sprintf("state=%s", ksNames[cb.state]))
+	c.Tracef("combo %+v", cb)
+
+	c.Bubble(func() {
+		w := newWorld(c, cfg)
+		w.prepare(sc)
+
+		complete := w.runSchedule(sc.gets, ctlOpts{})
+		w.reportProblems()
+		w.checkProvenance()
+		w.checkQuiescence(sc, complete)
+
+		c.Assert(complete, "step-budget", "schedule of two Gets did not finish within the step budget")
+
+		if len(w.log.gets) == 2 && w.log.gets[1].startStep < w.log.gets[0].returnStep {
+			c.NonTrivial()
+		}
+	})
 }
